@@ -605,38 +605,87 @@ def line_tracer(sched, suffixes):
 
 
 # ----------------------------------------------------------------------------
-# fork per scenario
+# forked execution
+#
+# Real threads cannot be killed: a run that ends in a deadlock, a step cap or with
+# a thread still alive leaves parked OS threads behind.  So threaded runs execute
+# in a forked child and the verdict comes back through a pipe as JSON.
+#
+#   VERIF_THREADS_FORK=scenario (default)  one child per scenario
+#   VERIF_THREADS_FORK=reuse               one child per parent process runs scenarios
+#       back to back; it is thrown away (and a new one forked on demand) as soon as a
+#       run ends *dirty* (verdict delivered from a fatal path, by a thread other than
+#       the main one, or with ``clean=False``) or after ``max_runs`` runs.  Parked
+#       threads therefore still die with their process, but the fork is amortised.
+#
+# A child that does not answer within ``wall`` seconds is killed and the run is a
+# harness error (RuntimeError), never a verdict.
+
+
+def _write_all(fd, data):
+    mv = memoryview(data)
+    while mv:
+        n = os.write(fd, mv)
+        mv = mv[n:]
+
+
+def _frame(obj):
+    data = json.dumps(obj).encode()
+    return len(data).to_bytes(4, "big") + data
 
 
 class ChildResult:
     """Lets any thread of the child deliver the run's result exactly once."""
 
-    def __init__(self, wfd):
+    def __init__(self, wfd, reuse=False):
         self.wfd = wfd
+        self.reuse = reuse
         self.sent = False
+        self.main_ident = _thread.get_ident()
 
-    def send(self, obj):
+    def send(self, obj, clean=True):
         if self.sent:  # pragma: no cover - a second thread after the verdict
             os._exit(0)
         self.sent = True
-        data = json.dumps(obj).encode()
-        mv = memoryview(data)
-        while mv:
-            n = os.write(self.wfd, mv)
-            mv = mv[n:]
-        os._exit(0)
+        if not self.reuse:
+            _write_all(self.wfd, json.dumps(obj).encode())
+            os._exit(0)
+        keep = bool(clean) and _thread.get_ident() == self.main_ident
+        _write_all(self.wfd, _frame({"r": obj, "more": keep}))
+        if not keep:
+            os._exit(0)
+        # clean: return to the caller, which unwinds normally to the serve loop
+
+
+def _wait_readable(fd, deadline):
+    import time
+    left = deadline - time.monotonic()
+    if left <= 0:
+        return False
+    ready, _, _ = _os_select([fd], [], [], left)
+    return bool(ready)
+
+
+def _kill(pid):
+    try:
+        os.kill(pid, signal.SIGKILL)
+    except ProcessLookupError:
+        pass
+    try:
+        os.waitpid(pid, 0)
+    except ChildProcessError:
+        pass
 
 
 def run_forked(child_fn, wall=20.0):
     """Run ``child_fn(result: ChildResult)`` in a forked child and return the
-    JSON object it delivered.  A child that neither answers nor exits within
-    ``wall`` seconds is killed and reported as a harness error (raise)."""
+    JSON object it delivered (one child per call)."""
+    import time
     r, w = os.pipe()
     sys.stdout.flush()
     sys.stderr.flush()
     pid = _os_fork()
     if pid == 0:
-        code = 0
         try:
             import gc
             gc.disable()
@@ -651,32 +700,20 @@ def run_forked(child_fn, wall=20.0):
                 res.sent = False
                 res.send({"harness_error": traceback.format_exc()})
         finally:
-            os._exit(code)
+            os._exit(0)
     os.close(w)
     chunks = []
-    try:
-        import time
-        deadline = time.monotonic() + wall
-        while True:
-            left = deadline - time.monotonic()
-            if left <= 0:
-                raise TimeoutError
-            ready, _, _ = _os_select([r], [], [], left)
-            if not ready:
-                raise TimeoutError
-            b = os.read(r, 1 << 16)
-            if not b:
-                break
-            chunks.append(b)
-    except TimeoutError:
-        try:
-            os.kill(pid, signal.SIGKILL)
-        except ProcessLookupError:
-            pass
-        os.waitpid(pid, 0)
-        os.close(r)
-        raise RuntimeError(f"threaded run exceeded the {wall:.0f}s wall-clock watchdog "
-                           "(harness error, not a verdict)")
+    deadline = time.monotonic() + wall
+    while True:
+        if not _wait_readable(r, deadline):
+            _kill(pid)
+            os.close(r)
+            raise RuntimeError(f"threaded run exceeded the {wall:.0f}s wall-clock watchdog "
+                               "(harness error, not a verdict)")
+        b = os.read(r, 1 << 16)
+        if not b:
+            break
+        chunks.append(b)
     os.close(r)
     _, st = os.waitpid(pid, 0)
     data = b"".join(chunks)
@@ -686,3 +723,150 @@ def run_forked(child_fn, wall=20.0):
     if "harness_error" in obj:
         raise RuntimeError("threaded run: exception in child:\n" + obj["harness_error"])
     return obj
+
+
+class ForkRunner:
+    """``handler(request, result)`` runs one scenario in a child process and calls
+    ``result.send(verdict, clean=...)``.  ``run(request)`` returns the verdict."""
+
+    def __init__(self, handler, wall=30.0, max_runs=250):
+        self.handler = handler
+        self.wall = wall
+        self.max_runs = max_runs
+        self.owner = None
+        self.pid = None
+        self.rfd = self.wfd = None
+        self.buf = b""
+        self.served = 0
+
+    @staticmethod
+    def mode():
+        m = os.environ.get("VERIF_THREADS_FORK", "scenario")
+        return "reuse" if m == "reuse" else "scenario"
+
+    def run(self, request):
+        if self.mode() == "scenario":
+            h = self.handler
+            return run_forked(lambda result: h(request, result), wall=self.wall)
+        return self._run_reuse(request)
+
+    # -- reuse mode -----------------------------------------------------------
+    def _drop(self, kill):
+        if self.pid is not None and self.owner == os.getpid():
+            for fd in (self.rfd, self.wfd):
+                try:
+                    os.close(fd)
+                except OSError:
+                    pass
+            if kill:
+                _kill(self.pid)
+            else:
+                try:
+                    os.waitpid(self.pid, 0)
+                except ChildProcessError:
+                    pass
+        self.pid = self.rfd = self.wfd = None
+        self.buf = b""
+        self.served = 0
+
+    def close(self):
+        self._drop(kill=False)
+
+    def _spawn(self):
+        import atexit
+        if self.owner != os.getpid():
+            # first use in this process (an inherited child belongs to the parent)
+            self.pid = None
+            atexit.register(self.close)
+        self.owner = os.getpid()
+        c2p_r, c2p_w = os.pipe()
+        p2c_r, p2c_w = os.pipe()
+        sys.stdout.flush()
+        sys.stderr.flush()
+        pid = _os_fork()
+        if pid == 0:
+            try:
+                os.close(c2p_r)
+                os.close(p2c_w)
+                self._serve(p2c_r, c2p_w)
+            finally:
+                os._exit(0)
+        os.close(c2p_w)
+        os.close(p2c_r)
+        self.pid, self.rfd, self.wfd = pid, c2p_r, p2c_w
+        self.buf = b""
+        self.served = 0
+
+    def _serve(self, rfd, wfd):
+        import gc
+        gc.disable()
+        buf = b""
+        n = 0
+        while True:
+            while len(buf) < 4 or len(buf) < 4 + int.from_bytes(buf[:4], "big"):
+                b = os.read(rfd, 1 << 16)
+                if not b:
+                    os._exit(0)  # parent gone or done with us
+                buf += b
+            ln = int.from_bytes(buf[:4], "big")
+            request = json.loads(buf[4:4 + ln])
+            buf = buf[4 + ln:]
+            n += 1
+            last = n >= self.max_runs
+            res = ChildResult(wfd, reuse=True)
+            try:
+                self.handler(request, res)
+                if not res.sent:
+                    res.send({"harness_error": "child function returned without a result"},
+                             clean=False)
+            except SystemExit:
+                raise
+            except BaseException:  # noqa: BLE001
+                if res.sent:
+                    # the verdict is out but unwinding failed: do not serve another run
+                    os._exit(0)
+                res.send({"harness_error": traceback.format_exc()}, clean=False)
+            if last:
+                os._exit(0)
+            if n % 16 == 0:
+                gc.collect()
+
+    def _read_frame(self, deadline):
+        while len(self.buf) < 4 or len(self.buf) < 4 + int.from_bytes(self.buf[:4], "big"):
+            if not _wait_readable(self.rfd, deadline):
+                return "timeout"
+            b = os.read(self.rfd, 1 << 16)
+            if not b:
+                return None
+            self.buf += b
+        ln = int.from_bytes(self.buf[:4], "big")
+        obj = json.loads(self.buf[4:4 + ln])
+        self.buf = self.buf[4 + ln:]
+        return obj
+
+    def _run_reuse(self, request):
+        import time
+        if self.pid is None or self.owner != os.getpid():
+            self._spawn()
+        try:
+            _write_all(self.wfd, _frame(request))
+        except BrokenPipeError:
+            self._drop(kill=True)
+            self._spawn()
+            _write_all(self.wfd, _frame(request))
+        msg = self._read_frame(time.monotonic() + self.wall)
+        if msg == "timeout":
+            self._drop(kill=True)
+            raise RuntimeError(f"threaded run exceeded the {self.wall:.0f}s wall-clock watchdog "
+                               "(harness error, not a verdict)")
+        if msg is None:
+            self._drop(kill=True)
+            raise RuntimeError("threaded run: child died without a result")
+        self.served += 1
+        if not msg["more"] or self.served >= self.max_runs:
+            self._drop(kill=False)
+        obj = msg["r"]
+        if "harness_error" in obj:
+            self._drop(kill=True)
+            raise RuntimeError("threaded run: exception in child:\n" + obj["harness_error"])
+        return obj
